@@ -588,7 +588,49 @@ def perturb(rng, desc, seq):
     return out
 
 
+def _c17_self_consistency(ctx):
+    """Designs outside the region where the reference semantics is defined (Nest whose outer block has a preamble):
+    whatever IterateSATGen returns must at least be accepted by the mismatch checker (the encoder and the checker are
+    two implementations of the same constraints)."""
+    col, siz = O._sf(0, ["r", "g"]), O._sf(10, ["s1", "s2"])
+    designs = []
+    for width in (2, 3):
+        size = 3 ** width
+        same = [1 if (k // 3 ** (width - 1)) == (k % 3) and k % 3 != 0 else 0 for k in range(size)]
+        dv = {"id": 1, "name": "f1", "window": {"deps": [0], "width": width, "stride": 1, "start": None, "kind": "window" if width > 2 else "transition"},
+              "levels": [{"name": "same", "w": 1, "table": same}, {"name": "diff", "w": 1, "table": [1 - x for x in same], "else": True}]}
+        for inner_levels in (2, 3):
+            si = O._sf(10, ["s1", "s2", "s3"][:inner_levels])
+            designs.append({"factors": [col, dv, si], "block": {"k": "nest", "cs": [], "align": "post preamble",
+                            "outer": {"k": "cross", "design": [0, 1], "crossing": [0, 1], "rcc": True, "cs": []},
+                            "inner": {"k": "cross", "design": [10], "crossing": [10], "rcc": True, "cs": []}}})
+    for desc in designs:
+        case = O.Case(ctx, desc)
+        if not case.build():
+            ctx.count("C17.self.rejected")
+            continue
+        case.regs = regions(desc, case.geo)
+        try:
+            exps = O.synth(case.fresh_block(), 4, "IterateSATGen", timeout=30)
+        except (Exception, O.CallTimeout):
+            continue
+        blk = case.built.block
+        for e in exps:
+            ctx.count("C17.self")
+            try:
+                mm = quiet(sp.sample_mismatch_experiment, blk, {k: list(v) for k, v in e.items()})
+            except Exception as ex:
+                mm = {"exception": type(ex).__name__}
+            if mm != {}:
+                report(ctx, "mismatch", case, "the mismatch checker says %s for a sequence IterateSATGen returned for a Nest "
+                       "with an outer preamble: %s" % (mm, json.dumps(e)[:300]), None, known_for(case.regs, "C17", "mismatch:self"))
+                return
+
+
 def oracle_c17(ctx, budget_s):
+    _c17_self_consistency(ctx)
+    if ctx.failures:
+        return
     ctx.rules.append("C17 oracle: sample_mismatch_experiment(block, s) == {} iff Spec.valid, on every valid sequence "
                      "(from Spec.validSeqs) and on perturbed ones (one cell changed with derived cells left as they "
                      "were; two trials swapped) that still give one level name per applicable trial")
